@@ -510,6 +510,14 @@ func ApplyOverlapToChunks(chunks []*Chunk, config OverlapConfig) []*ChunkWithOve
 	generator := NewOverlapGeneratorWithConfig(config)
 	result := make([]*ChunkWithOverlap, len(chunks))
 
+	// The chunk texts are rewritten in place below: remember each chunk's own content so
+	// that the overlap for chunk i comes from chunk i-1's content, not from a text that
+	// already starts with chunk i-2's overlap.
+	ownText := make([]string, len(chunks))
+	for i, chunk := range chunks {
+		ownText[i] = chunk.Text
+	}
+
 	for i, chunk := range chunks {
 		result[i] = &ChunkWithOverlap{
 			Chunk: chunk,
@@ -517,8 +525,7 @@ func ApplyOverlapToChunks(chunks []*Chunk, config OverlapConfig) []*ChunkWithOve
 
 		if i > 0 && config.Strategy != OverlapNone {
 			// Generate overlap from previous chunk
-			prevChunk := chunks[i-1]
-			overlap := generator.GenerateOverlap(prevChunk.Text)
+			overlap := generator.GenerateOverlap(ownText[i-1])
 
 			if overlap.Text != "" {
 				result[i].OverlapPrefix = overlap.Text
